@@ -24,12 +24,12 @@ EXPLANATION += (  # round-3 supplement
     ' A6 every type erasure in List<T> and the value stored by Constant::new is T::Transformed. A7 types Rust passes by pointer are not elided from signatures (known finding). A1 requires exactly repr(u8).'
 )
 EXPLANATION += (
-    ' A8 (= C18.I8) the Roto type under which a script reads a registered Rust value is built from the Rust type description constructor by constructor with the components in the same order. A9 a projected mir::Place built on a variable that assign_to_var(value, T) made carries root type T.'
+    ' A8 (= C18.I8) the Roto type under which a script reads a registered Rust value is built from the Rust type description constructor by constructor with the components in the same order. A9 a projected mir::Place built on a variable that assign_to_var(value, T) made carries root type T. A10 every by-value parameter of a signature declared for a host-compiled function (Linkage::Import) carries the argument extension of its IR type (bool/u8/u16 uext, i8/i16 sext), evaluated per IrType variant through the helper that builds it.'
 )
 ASSUMPTIONS = [
     "rustc's layout_of is the oracle for the layout of the Rust-side types",
     "context field offsets produced by offset_of! inside the proc-macro's quote! template are not resolved code and are not decided",
-    "extern \"C\" passes scalars and pointers as declared (cranelift / rustc ABI trusted)",
+    "extern \"C\" passes scalars and pointers as declared, given that the declaration says how small integers are extended (A10) (cranelift / rustc ABI trusted)",
 ]
 
 MIRRORS = {
@@ -671,6 +671,233 @@ def rule_a9(F):
     return r
 
 
+NARROW_UNSIGNED = ("Bool", "U8", "U16")
+NARROW_SIGNED = ("I8", "I16")
+
+
+def _abi_flow(F, b, variant_idx, irtype, tables, depth=0):
+    """Forward may-dataflow over one body for ONE variant of lir::IrType: local -> set of (extension, type class) of the AbiParam it
+    may hold.  extension: none | uext | sext; type class: var (the cranelift type of an IrType, i.e. narrow for the narrow variants) |
+    narrow (a constant I8 / I16) | wide.  A switch on the discriminant of an IrType place only follows the edge of the variant."""
+    nb = len(b.blocks)
+    defs = mir.Defs(b)
+    discr_locals = set()
+    for blk in b.blocks:
+        for st in blk["stmts"]:
+            if st["k"] == "assign" and st["rv"]["k"] == "discr" and st["rv"].get("ty", "").endswith(irtype):
+                discr_locals.add(st["p"][0])
+
+    def tyclass(op):
+        if not mir.is_place_op(op):
+            c = mir.op_const(op)
+            txt = str((c or {}).get("text", ""))
+            return "narrow" if re.search(r"::I(8|16)$", txt) else "wide"
+        root, _ = mir.origin(b, defs, op[1])
+        if root.startswith("call:"):
+            c = root[5:]
+            return "var" if F.body(c) is not None else "wide"
+        if root.startswith("const:"):
+            return "narrow" if re.search(r"::I(8|16)$", root) else "wide"
+        return "var" if root.startswith("arg") else "wide"
+
+    ins = [None] * nb
+    ins[0] = {}
+    work = [0]
+    at_call = {}
+    while work:
+        bi = work.pop()
+        env = dict(ins[bi])
+        blk = b.blocks[bi]
+        def ext_of(op):
+            """Extension values an operand of type ArgumentExtension may hold."""
+            if mir.is_place_op(op):
+                return {e for e, tc in env.get(op[1][0], ()) if tc == "E"} if len(op[1]) == 1 else set()
+            c = mir.op_const(op) or {}
+            m = re.search(r"ArgumentExtension::(\w+)", str(c.get("text", "")))
+            return {m.group(1).lower()} if m else set()
+
+        for st in blk["stmts"]:
+            if st["k"] != "assign":
+                continue
+            rv = st["rv"]
+            if len(st["p"]) == 2 and isinstance(st["p"][1], list) and st["p"][1][0] == "f" and st["p"][1][-1] == "extension" and st["p"][0] in env:
+                # param.extension = <ext>
+                es = {rv.get("variant", "").lower()} if rv["k"] == "agg" and str(rv.get("adt", "")).endswith("ArgumentExtension") else (ext_of(rv["o"]) if rv["k"] == "use" else set())
+                env[st["p"][0]] = frozenset({(e, tc) for e in (es or {"?"}) for _, tc in env[st["p"][0]] if tc != "E"})
+                continue
+            if len(st["p"]) != 1:
+                continue
+            src = rv.get("o") if rv["k"] == "use" else None
+            if src is not None and mir.is_place_op(src) and len(src[1]) == 1 and src[1][0] in env:
+                env[st["p"][0]] = env[src[1][0]]
+            elif rv["k"] == "agg" and str(rv.get("adt", "")).endswith("ArgumentExtension"):
+                env[st["p"][0]] = frozenset({(rv.get("variant", "").lower(), "E")})
+            elif rv["k"] == "agg" and str(rv.get("adt", "")).endswith("AbiParam") and "extension" in (rv.get("fields") or []):
+                fs = rv["fields"]
+                es = ext_of(rv["ops"][fs.index("extension")]) or {"?"}
+                tc = tyclass(rv["ops"][fs.index("value_type")]) if "value_type" in fs else "var"
+                env[st["p"][0]] = frozenset({(e, tc) for e in es})
+            else:
+                env.pop(st["p"][0], None)
+        t = blk["term"]
+        succs = []
+        if t["k"] == "call":
+            at_call[bi] = dict(env)
+            c = mir.callee(t) or ""
+            d = t.get("dest")
+            if d and len(d) == 1:
+                a0 = t["args"][0] if t.get("args") else None
+                prev = env.get(a0[1][0]) if (a0 is not None and mir.is_place_op(a0) and len(a0[1]) == 1) else None
+                if c.endswith("AbiParam::new"):
+                    env[d[0]] = frozenset({("none", tyclass(a0))})
+                elif c.endswith("AbiParam::uext") or c.endswith("AbiParam::sext"):
+                    e = c[-4:]
+                    env[d[0]] = frozenset({(e, tc) for _, tc in (prev or {("none", "var")})})
+                elif F.body(c) is not None and depth < 3 and any(irtype in (x.get("ty") or "") for x in F.body(c).mir["locals"][1:1 + F.body(c).mir["argc"]]):
+                    tb = tables.get(c)
+                    if tb is None:
+                        tb = tables[c] = {}
+                    if variant_idx not in tb:
+                        hb = F.body(c)
+                        tb[variant_idx] = None
+                        hin, _ = _abi_flow(F, hb, variant_idx, irtype, tables, depth + 1)
+                        out = set()
+                        for hbi, hblk in enumerate(hb.blocks):
+                            if hblk["term"]["k"] == "return" and hin[hbi] is not None:
+                                henv = dict(hin[hbi])
+                                for st in hblk["stmts"]:
+                                    if st["k"] == "assign" and st["p"] == [0] and st["rv"]["k"] == "use" and mir.is_place_op(st["rv"]["o"]):
+                                        henv[0] = henv.get(st["rv"]["o"][1][0])
+                                if henv.get(0):
+                                    out |= set(henv[0])
+                        tb[variant_idx] = frozenset(out) if out else None
+                    if tb[variant_idx]:
+                        env[d[0]] = tb[variant_idx]
+                    else:
+                        env.pop(d[0], None)
+                else:
+                    env.pop(d[0], None)
+            if t.get("t") is not None:
+                succs.append(t["t"])
+        elif t["k"] == "switch":
+            o = t["o"]
+            if mir.is_place_op(o) and o[1][0] in discr_locals:
+                tg = [x for v, x in t["targets"] if v == variant_idx]
+                succs = tg if tg else [t["otherwise"]]
+            else:
+                succs = [x for _, x in t["targets"]] + ([t["otherwise"]] if t.get("otherwise") is not None else [])
+        else:
+            succs = list(mir.succs(blk))
+        for sb in succs:
+            if sb is None:
+                continue
+            old = ins[sb]
+            if old is None:
+                ins[sb] = dict(env)
+                work.append(sb)
+            else:
+                ch = False
+                for k, v in env.items():
+                    nv = frozenset(old.get(k, frozenset())) | v
+                    if nv != old.get(k):
+                        old[k] = nv
+                        ch = True
+                if ch:
+                    work.append(sb)
+    return ins, at_call
+
+
+def rule_a10(F):
+    """A small integer handed BY VALUE to code that rustc compiled arrives as sent only if the caller extends it: on x86-64 (and
+    other C ABIs) the callee may assume that an argument narrower than 32 bits was zero- or sign-extended by its caller (LLVM
+    `zeroext` / `signext`), and optimised builds of the host do.  Cranelift leaves the upper bits of the register undefined unless the
+    parameter of the *declared signature* says how to extend.  So: every parameter pushed onto a signature that is declared with
+    Linkage::Import (the trampolines of registered functions) is, for each narrow variant of lir::IrType, an AbiParam with the
+    extension of that variant's signedness - Bool/U8/U16: uext, I8/I16: sext.  Evaluated per variant by a forward dataflow over the
+    declaring function and the helpers that build the parameter (a `match` on the IrType follows only that variant's edge)."""
+    r = RuleResult("C05.A10", "by-value parameters of signatures declared for host (Rust-compiled) functions carry the argument extension of their IR type: bool/u8/u16 uext, i8/i16 sext", floor=1)
+    adt = [a for a in F.adts() if a["path"].endswith("lir::value::IrType")]
+    if not adt:
+        r.missing("lir::value::IrType")
+        return r
+    vnames = [v["name"] for v in adt[0]["variants"]]
+    miss = [v for v in NARROW_UNSIGNED + NARROW_SIGNED if v not in vnames]
+    if miss:
+        r.missing("IrType variants %s" % miss)
+        return r
+    nsites = 0
+    for b in F.all_bodies():
+        if not b.mir or not b.path.startswith("codegen::"):
+            continue
+        decls = [(bi, t) for bi, t in mir.calls(b) if (mir.callee(t) or "").endswith("Module>::declare_function") or (t["f"].get("def") or "").endswith("cranelift_module::Module::declare_function")]
+        if not decls:
+            continue
+        defs = mir.Defs(b)
+
+        def root_local(local, seen=()):
+            ds = defs.whole_defs(local)
+            if len(ds) != 1 or local in seen or ds[0][2] != "assign":
+                return local
+            rv = ds[0][3]["rv"]
+            if rv["k"] in ("ref", "rawptr"):
+                return root_local(rv["p"][0], seen + (local,))
+            if rv["k"] == "use" and mir.is_place_op(rv["o"]):
+                return root_local(rv["o"][1][0], seen + (local,))
+            return local
+
+        import_sigs = set()
+        for bi, t in decls:
+            link = None
+            sigs = []
+            for a in t["args"]:
+                if not mir.is_place_op(a):
+                    continue
+                for d in defs.whole_defs(a[1][0]):
+                    if d[2] == "assign" and d[3]["rv"]["k"] == "agg" and str(d[3]["rv"].get("adt", "")).endswith("Linkage"):
+                        link = d[3]["rv"].get("variant")
+                    elif d[2] == "assign" and d[3]["rv"]["k"] == "ref":
+                        sigs.append(root_local(a[1][0]))
+            if link == "Import":
+                import_sigs |= set(sigs)
+        if not import_sigs:
+            continue
+        pushes = []
+        for bi, t in mir.calls(b):
+            if not (mir.callee(t) or "").endswith("::push") or len(t["args"]) != 2 or not mir.is_place_op(t["args"][0]):
+                continue
+            ds = defs.whole_defs(t["args"][0][1][0])
+            if len(ds) != 1 or ds[0][2] != "assign" or ds[0][3]["rv"]["k"] != "ref":
+                continue
+            pl = ds[0][3]["rv"]["p"]
+            if root_local(pl[0]) in import_sigs and any(isinstance(x, list) and x[0] == "f" and x[-1] == "params" for x in pl[1:]):
+                pushes.append((bi, t))
+        tables = {}
+        for bi, t in pushes:
+            nsites += 1
+            v = t["args"][1]
+            wrong = {}
+            seen_kinds = {}
+            for name in NARROW_UNSIGNED + NARROW_SIGNED:
+                idx = vnames.index(name)
+                _, at_call = _abi_flow(F, b, idx, "IrType", tables)
+                kinds = at_call.get(bi, {}).get(v[1][0]) if mir.is_place_op(v) and len(v[1]) == 1 else None
+                want = "uext" if name in NARROW_UNSIGNED else "sext"
+                seen_kinds[name] = sorted("%s/%s" % k for k in (kinds or []))
+                if kinds is None:
+                    wrong[name] = "not an AbiParam the rule can follow"
+                    continue
+                bad = [e for e, tc in kinds if (tc == "var" and e != want) or (tc == "narrow" and e == "none")]
+                if bad:
+                    wrong[name] = "%s (expected %s)" % (", ".join(sorted(set(bad))), want)
+            r.inst("parameter pushed onto an imported signature", {"fn": b.path, "line": t["line"], "extension_by_variant": seen_kinds})
+            if wrong:
+                r.bad(b.path, "host parameter without the extension of its type", relfile(b.file), t["line"],
+                      "the signature declared for a function compiled by Rust (Linkage::Import) gets a parameter whose extension is wrong for %s: the upper bits of the argument register are "
+                      "undefined and an optimised host reads them (e.g. a registered `fn(x: u8) -> u32 { x as u32 }` called with `a + b` = 300 returns 300, not 44)"
+                      % "; ".join("%s: %s" % kv for kv in sorted(wrong.items())))
+    return r
+
+
 def rules(ctx):
     F = ctx["F"]
-    return [rule_a1(F), rule_a2(F), rule_a3(F), rule_a4(F), rule_a5(F), rule_a6(F), rule_a7(F), rule_a8(F), rule_a9(F)]
+    return [rule_a1(F), rule_a2(F), rule_a3(F), rule_a4(F), rule_a5(F), rule_a6(F), rule_a7(F), rule_a8(F), rule_a9(F), rule_a10(F)]
